@@ -31,9 +31,15 @@ MANIFEST = dict(
          "substitution returned by ConstraintSolver::solve (unification + Gaussian elimination over exponents) "
          "satisfies every Equal / IsDType / EqualScalar constraint under every well-sorted valuation that is an "
          "instance of it; C02_whole_input / C02_whole_input_accepted — a statement that fails to check after a checked "
-         "prefix rejects the whole input, leaves the pre-input checker state and never enters the run stage. NOT "
-         "proved: C02_accept_sound (constraint generation sound w.r.t. the declarative dimensional analysis of "
-         "Dim/Sem.v), C02_reject_complete, solver termination/mgu. Those clauses rest on the ties: accept/reject, the "
+         "prefix rejects the whole input, leaves the pre-input checker state and never enters the run stage; "
+         "C02_accept_sound / C02_accept_sound_annotated — for the arithmetic core of the elaborator (literals incl. the "
+         "polymorphic 0, identifiers, units, unary and binary operators with constant exponents, comparisons, if, calls "
+         "of functions with monomorphic signatures; no list literals) over monomorphic environments: acceptance plus a "
+         "solver solution imply, in every well-sorted instance of the solution, the declarative dimensional analysis "
+         "has_ty of Dim/Sem.v at exactly the meaning of the inferred (and of the reported) type, and for annotated "
+         "definitions that the annotation denotes the derived dimension. NOT proved: accept-soundness for polymorphic "
+         "environment entries, function definitions/generalisation and lists; C02_reject_complete; solver "
+         "termination/mgu; idempotence of the returned substitution. Those clauses rest on the ties: accept/reject, the "
          "TypeCheckError variant and the raw type scheme of every statement are compared between model and "
          "implementation on generated multi-statement programs, mis-dimensioned variants and two-input sessions; an "
          "independent dimensional analysis in Python gives the expected verdict and dimensions on the implementation; "
